@@ -6,7 +6,7 @@ ID = 'C09'
 HARNESSES = ['h_c09.cpp']
 LEVEL = 'model_checking'
 BUDGET = {'quick': 280, 'thorough': 2400}
-BOUNDS = {'quick': '(a) Parameter::set(data, dims) for int/float/string with 0..4 elements and 0..7 dimensions, EVERY extent a free 8-bit variable (0..255): accepted <=> element count = product of extents, decided by z3 against a 64-bit product; refusal leaves the parameter unchanged. (b) all sequences of 2 tree edits (add with symbolic name that may equal an existing one, replace with another type, new group, lock/unlock) on a fresh object, on a loaded object and on an object loaded from a file with two groups of the same name; whole tree compared',
+BOUNDS = {'quick': '(a) Parameter::set(data, dims) for int/float/string with 0..4 elements and 0..7 dimensions, EVERY extent a free 8-bit variable (0..255): accepted <=> element count = product of extents, decided by z3 against a 64-bit product; refusal leaves the parameter unchanged. (b) all sequences of 2 tree edits (add with symbolic name that may equal an existing one, replace with another type, new group, a parameter of the object itself copied into a new group, lock/unlock) on a fresh object, on a loaded object and on an object loaded from a file with two groups of the same name; whole tree compared',
           'thorough': '(a) 0..8 elements; (b) sequences of 3 edits'}
 OUTSIDE = 'extents above 255 (outside the format); replacing the mandatory POINT/ANALOG parameters the updaters read (their type is a precondition of every other call)'
 ASSUMPTIONS = ['the oracle product is computed in 64-bit bit-vectors, exact because 255^7 < 2^56']
@@ -22,12 +22,12 @@ def jobs(tier, seed):
                     out.append({'entry': 'h_c09_set', 'harness': 'h_c09.cpp', 'name': 'set', 'cfg': {'type': type_, 'ndata': ndata, 'ndims': ndims, 'slen': 2, 'prior': prior}})
     depth = 2 if tier == 'quick' else 3
     for start in (0, 1, 2):
-        for op in range(7):
+        for op in range(8):
             for kind in (0, 1, 2):
                 for nlen in ((3, 4, 7, 10) if kind == 0 else (4,)) if tier == 'quick' else (3, 4, 6, 7, 10):
                     if op != 0 and (kind, nlen) != (0, 4): continue
                     if depth >= 3:
-                        for op2 in range(7):      # split the work: the first two operations are fixed per job
+                        for op2 in range(8):      # split the work: the first two operations are fixed per job
                             if op2 == 0 and op == 0 and nlen > 4: continue
                             out.append({'entry': 'h_c09_tree', 'harness': 'h_c09.cpp', 'name': 'tree', 'cfg': {'depth': depth, 'start': start, 'kind': kind, 'nlen': nlen}, 'forced': [op, op2]})
                     else:
@@ -96,8 +96,8 @@ def tree_obligations(sec, job, st, eng=None):
         op = dict(sec['call' + sfx])['op']; out = dict(sec['outcome' + sfx])['outcome']
         grpname = dict(sec['call' + sfx]).get('group')
         B = obsmodel.parse_dump(sec['before' + sfx])['groups']; A = obsmodel.parse_dump(sec['after' + sfx])['groups']
-        name = {0: 'parameter(FORCE_PLATFORM, symbolic name)', 1: 'parameter(FORCE_PLATFORM, ZERO)', 2: 'parameter(new group)', 3: 'parameter(new group) again', 4: 'lockGroup(FORCE_PLATFORM)', 5: 'unlockGroup(FORCE_PLATFORM)', 6: 'lockGroup(ANALOG)'}[op]
-        if op >= 4:
+        name = {0: 'parameter(FORCE_PLATFORM, symbolic name)', 1: 'parameter(FORCE_PLATFORM, ZERO)', 2: 'parameter(new group)', 3: 'parameter(new group) again', 4: 'lockGroup(FORCE_PLATFORM)', 5: 'unlockGroup(FORCE_PLATFORM)', 6: 'lockGroup(ANALOG)', 7: 'parameter(new group, a parameter of this object)'}[op]
+        if op in (4, 5, 6):
             target = ('EXTRA' if job['cfg']['start'] == 2 else 'FORCE_PLATFORM') if op in (4, 5) else 'ANALOG'
             if not any(obsmodel.cstr(g['name']) == target for g in B):
                 # documented: std::invalid_argument for a group that does not exist; nothing changes
@@ -107,7 +107,7 @@ def tree_obligations(sec, job, st, eng=None):
                 continue
         O.append(Obl('tree/call-accepted', out != 0, '%s threw exception class %d' % (name, out)))
         if out != 0: continue
-        if op <= 3:
+        if op <= 3 or op == 7:
             gsfx = '' if gi == 0 else '#%d' % (gi + 1); gi += 1
             G = param_of(sec['given' + gsfx]); L = param_of(sec['lookup' + gsfx])
             O += param_eq('tree/lookup-returns-given', G, L, 'look-up after %s' % name)
@@ -192,7 +192,7 @@ def run_job(engine, job):
     elif job['cfg']['start'] == 2:
         S, cells = dup_group_file(); files = {'in.c3d': gen.to_engine_cells(cells)}; assume = S.cons
     eng = engine('O1')
-    return std_run(engine, job, lambda sec, job, st: tree_obligations(sec, job, st, eng), 'c09.end', ID, 'tree', files=files, assume=assume, forced_choices=job['forced'])
+    return std_run(engine, job, lambda sec, job, st: tree_obligations(sec, job, st, eng), 'c09.end', ID, 'tree', files=files, assume=assume, forced_choices=job['forced'], fatal_as='violation')
 
 def native_confirm(nat, v):
     out, sec = native_sections(nat, v['replay'])
